@@ -1,5 +1,5 @@
 """C11 — EC: rejection obligations in every implementation + curve constants against SEC 2 / RFC 7748 (DESIGN §4 C11)."""
-from .. import build, report, oblig, tab
+from .. import build, report, oblig, tab, irf
 from ..oblig import Ob, Call, ICall, Var, RET, ALL, NOCALL
 from .c13 import cmp_table
 from ..build import AnalysisBroken
@@ -119,17 +119,89 @@ def rs_nonzero(chk):
             oblig.run_obligations(chk, [Ob(src, fn, Call('br_%s_iszero' % w, nth=k), ('pin', 1), RET(0), ('pin', 0), '%s = 0 must be rejected' % name, rule=R)])
 
 
+def muladd_zero_test(chk):
+    """x*A + y*B "including when the two terms are equal, opposite or sum to infinity": the P-256 implementations detect the special
+    cases by testing Z == 0 after the final addition.  Field elements are only partially reduced (Z may be p instead of 0), so the
+    limbs that are OR-ed into the test must have gone through the final-reduction function after the last point operation on P."""
+    R = 'muladd-zero-test-canonical'
+    REDUCE = ('reduce_final_f256', 'f256_final_reduce')
+    n = 0
+    for impl in ('m15', 'm31', 'm62', 'm64'):
+        src = 'src/ec/ec_p256_%s.c' % impl
+        try:
+            u = build.load_unit(src)
+        except AnalysisBroken:
+            continue
+        U = irf.Units({'u': u})
+        F = U.func('api_muladd')
+        if F is None:
+            raise AnalysisBroken('%s: api_muladd vanished' % src)
+        # loads feeding EQ(z, 0)
+        tests = [c for c in F.calls('EQ') if c['ops'][1]['k'] == 'c' and c['ops'][1]['v'] == 0]
+        found = False
+        for c in tests:
+            seen, st, loads = set(), [c['ops'][0]], []
+            while st:
+                o = st.pop()
+                if o['k'] != 'i' or o['v'] in seen:
+                    continue
+                seen.add(o['v'])
+                i = F.insts[o['v']]
+                if i['op'] == 'load':
+                    loads.append(i)
+                elif i['op'] in ('or', 'phi', 'trunc', 'zext', 'lshr'):
+                    st.extend(i['ops'])
+            regs = set()
+            for l in loads:
+                p = F.strip_casts(l['ops'][0])
+                off = 0
+                if p['k'] == 'i' and F.insts[p['v']]['op'] == 'getelementptr' and F.insts[p['v']].get('var'):
+                    g = F.insts[p['v']]
+                    b, o0 = F.addr_of(g['ops'][0])
+                    off = (o0 or 0) + (g.get('off') or 0)
+                else:
+                    b, off = F.addr_of(l['ops'][0])
+                if b['k'] == 'i' and F.insts[b['v']]['op'] == 'alloca':
+                    regs.add((b['v'], off))
+            if not regs:
+                continue
+            base = next(iter(regs))[0]
+            if any(r[0] != base for r in regs):
+                continue
+            zoff = min(r[1] for r in regs)
+            found = True
+            n += 1
+            inst = 'ec_p256_%s api_muladd: Z is fully reduced before the Z == 0 test' % impl
+            red = [k for k in F.calls() if k.get('callee') in REDUCE and F.addr_of(k['ops'][0]) == ({'k': 'i', 'v': base}, zoff)]
+            first_load = min(loads, key=lambda l: F.order[l['id']])
+            red = [k for k in red if all(F.dominates(k['id'], l['id']) for l in loads)]
+            # every other call that takes a pointer into P and dominates the test must come before the reduction
+            others = [k for k in F.calls() if k.get('callee') not in REDUCE and k.get('callee') not in ('EQ', 'NEQ')
+                      and any(F.addr_of(a)[0] == {'k': 'i', 'v': base} for a in k['ops'] if a['k'] == 'i')
+                      and F.dominates(k['id'], first_load['id'])]
+            okk = bool(red) and all(any(F.dominates(k['id'], r['id']) for r in red) for k in others)
+            if okk:
+                chk.ok(R, inst, F.where(c), '%s(P.z) after %d point operation(s) on P' % (red[0]['callee'], len(others)))
+            else:
+                chk.violation(R, inst, F.where(c), 'the limbs of P.z are tested for zero without a final reduction after the last operation on P: a Z equal to '
+                              'the field prime (equal or opposite terms) is not recognised, and a wrong point / success is returned', key='%s %s' % (R, impl))
+        if not found:
+            raise AnalysisBroken('%s: the Z == 0 test of api_muladd was not recognised' % src)
+    chk.floor('P-256 muladd implementations', n, 4)
+
+
 def run(tier):
     chk = report.Check('C11', tier,
                        'Static: (1) curve constants of every implementation (field primes, Montgomery constants R^2 and b*R in the i15/i31 word '
                        'encodings, generators, orders, curve definition structs, Curve25519 p / A24 / base point) equal values generated from '
                        'SEC 2 / FIPS 186-4 / RFC 7748; (2) rejection obligations: invalid coordinates, off-curve points, failed decodings, r/s out '
                        'of range, s = 0, failed point arithmetic force the failure return, in prime_i15 and prime_i31 and both ECDSA verifiers; '
-                       'accumulator updates of the verdict are conjuncts. NOT decided: the group law, scalar multiplication, RFC 6979 values.',
+                       'accumulator updates of the verdict are conjuncts; the four P-256 api_muladd test Z == 0 on a fully reduced Z. NOT decided: the group law, scalar multiplication, RFC 6979 values.',
                        trusted=['reference constants in sa/tab.py (self-checked: generators satisfy the curve equation)', 'clang/opt 14'])
     constants(chk)
     oblig.run_obligations(chk, obligations())
     rs_nonzero(chk)
+    muladd_zero_test(chk)
     conj = []
     for w in ('i15', 'i31'):
         conj.append(('src/ec/ec_prime_%s.c' % w, 'point_decode', 'r', 'and', 3, 'decode results, format byte and curve equation are conjuncts'))
